@@ -89,6 +89,8 @@ def pre_state(P, A):
         stories = [mk_story(sid, item_ids=('i1',) if P.get('rich') else (), lead=2, timing=timing())
                    for sid in ids]
         ro = B.running_order(stories, lead=P.get('lead', 2), gap=g, trail=P.get('trail', 0))
+        if P.get('prehist'):
+            B.prehist_replace(ro)
         return ro, (lambda: B.rc_of(ro)), ids, {'addr': None}
     # item level: two stories; the addressed one holds the N symbolic item IDs, the other one
     # holds items with the *same* IDs in reverse order (item IDs may repeat across stories)
@@ -98,6 +100,8 @@ def pre_state(P, A):
     other = mk_story(other_id, list(reversed(ids)), lead=2, timing=timing())
     order = [addressed, other] if P.get('w', 0) == 0 else [other, addressed]
     ro = B.running_order(order, lead=2)
+    if P.get('prehist'):
+        B.prehist_replace(ro)
 
     def cont():
         for s in B.rc_of(ro).findall('story'):
@@ -118,17 +122,33 @@ def keys(level, cont):
     return [i.find('itemID').text for i in cont.findall('item')]
 
 
-def carried(level, new_ids):
+def carried(level, new_ids, timing='7'):
+    """timing: a duration text, 'blank' (a <StoryDuration/> tag without text), 'odd' (01:30), or None"""
     if level == 'story':
-        return [mk_story(n, item_ids=('ni',), lead=2, timing=B.timing_block(dur='7')) for n in new_ids]
+        def tb():
+            if timing is None:
+                return None
+            if timing == 'blank':
+                return B.timing_block(dur=None, text_time=None, media_time=None, started=None,
+                                      ended=None) if False else _blank_duration()
+            if timing == 'odd':
+                return B.timing_block(dur=None, media_time='01:30')
+            return B.timing_block(dur=timing)
+        return [mk_story(n, item_ids=('ni',), lead=2, timing=tb()) for n in new_ids]
     return [B.item(n, slug='new') for n in new_ids]
+
+
+def _blank_duration():
+    tb = B.timing_block(dur='0')
+    tb.find('mosPayload').find('StoryDuration').text = None
+    return tb
 
 
 def build_message(P, ids, tgt, srcs, new_ids, addr=None):
     """tgt: reference value; srcs: list of reference values; new_ids: carried IDs."""
     op = P['op']
     level = OPS[op][0]
-    new = carried(level, new_ids)
+    new = carried(level, new_ids, timing=P.get('carried_timing', '7'))
     if op == 'roStoryAppend':
         return M.story_append(new)
     if op == 'roStoryInsert':
@@ -140,8 +160,12 @@ def build_message(P, ids, tgt, srcs, new_ids, addr=None):
     if op == 'roStoryDelete':
         return M.story_delete(srcs)
     if op == 'roStorySend':
-        return M.story_send(srcs[0], body=[T('p', 'sent'), M.story_item('si')],
-                            pre=[B.timing_block(dur='5')] if P.get('timing', True) else [])
+        body = [T('p', 'sent'), M.story_item('si')]
+        if P.get('long_body'):
+            body = [M.story_item('si1'), T('p', 'one'), M.story_item('si2'), T('p', None), M.story_item('si3'), T('p', 'two')]
+        return M.story_send(srcs[0], body=body,
+                            pre=[B.timing_block(dur='5')] if P.get('timing', True) else [],
+                            body_tag=not P.get('no_body'))
     if op == 'EAStoryInsert':
         return M.ea_story_insert(tgt, new)
     if op == 'EAStoryReplace':
@@ -181,7 +205,17 @@ def idx_of(seq, obj):
     for i, x in enumerate(seq):
         if x is obj:
             return i
+    for i, x in enumerate(seq):          # after a deep copy (roReplace pre-history) identity is gone
+        if obj is not None and x is not None and _eq(x, obj):
+            return i
     return None
+
+
+def _eq(x, y):
+    try:
+        return bool(x == y)
+    except Exception:
+        return False
 
 
 def model(op, seq, t, us, new):
